@@ -42,7 +42,7 @@ def describe(tier):
                 "atoms and every edit-distance-1 neighbour on the lexical-token level (delete / duplicate / substitute / insert); (d) a fixed list "
                 "of type-confusing strings; (e) every indicator spelling at edit distance <= 1 of the documented ones (alone, followed by "
                 "condition expressions, as second part, as bare final mark). Each string goes through all four entry points; oracle: condition parser accepts <=> reference "
-                "recogniser R2 accepts, else exactly SyntaxError; AHB parser: tree (lossless split) or SyntaxError; resolver: tree without raw "
+                "recogniser R2 accepts, else exactly SyntaxError; AHB parser: tree (whose tokens add up to the input, modulo whitespace) or SyntaxError; resolver: tree without raw "
                 "CONDITION_EXPRESSION token or SyntaxError, MUST accept L_cond + strict AHB forms, MUST reject everything outside L_cond + lenient "
                 "AHB forms (I2); is_valid_expression returns (False, message) for every must-reject string. Non-trivial = the string contains at "
                 "least one '[' and is not accepted by R2 as-is, or is accepted with >= 2 atoms.",
@@ -154,7 +154,7 @@ def check_string(s):
     r = I.try_call(I.parse_ahb_expression_to_single_requirement_indicator_expressions, s)
     if r[0] == "ok":
         cat = _token_concat(I.tree_to_tuple(r[1]))
-        if cat != s:
+        if "".join(cat.split()) != "".join(s.split()):  # whitespace is insignificant: a parser may or may not keep it in its tokens
             v("ahb-parser-lossy", s, cat, "the parts of the split do not add up to the input")
     else:
         if not isinstance(r[2], SyntaxError):
